@@ -1294,4 +1294,97 @@ theorem run_of_list (s0 : State) (evs : List Ev)
       simp [List.getD, this]
     rw [this]; rfl
 
+
+/-! ### runs with interruptions (crash / restart / reset), both reset modes -/
+
+/-- no failure marker anywhere on disk -/
+def CleanInv (s : State) : Prop := ∀ n, CleanNode s n
+
+theorem cleanInv_step {s : State} {e : Ev} (hen : enabled s e = true) (hnf : e.failing = false)
+    (h : CleanInv s) : CleanInv (apply s e) := by
+  intro n f r
+  have key : ∀ y, (y = Sentinel.errors ∨ y = Sentinel.assert) → (s.m ⟨n, f, r⟩).disk.has y = false →
+      ((apply s e).m ⟨n, f, r⟩).disk.has y = false := by
+    intro y hy h0
+    cases h1 : ((apply s e).m ⟨n, f, r⟩).disk.has y
+    · rfl
+    · exfalso
+      rcases disk_origin hen h0 h1 with ⟨he, _⟩ | he | ⟨_, he⟩ | ⟨_, he⟩ | ⟨he, _⟩
+      · subst he; rcases hy with rfl | rfl <;> simp [Ev.failing] at hnf
+      · subst he; rcases hy with rfl | rfl <;> simp [Ev.failing] at hnf
+      · rcases hy with rfl | rfl <;> rcases he with he | he <;> cases he
+      · rcases hy with rfl | rfl <;> cases he
+      · subst he; simp [Ev.failing] at hnf
+  exact ⟨key _ (Or.inl rfl) (h n f r).1, key _ (Or.inr rfl) (h n f r).2⟩
+
+/-- the invariants the progress argument needs; all hold in every reachable state of
+either reset mode as long as no failure event happened -/
+structure LiveInv (s : State) : Prop where
+  obj : ObjsInv s
+  role : RoleInv s
+  launch : LaunchInv s
+  range : ForkRange s
+  clean : CleanInv s
+
+theorem liveInv_step {s : State} {e : Ev} (hen : enabled s e = true) (hnf : e.failing = false)
+    (h : LiveInv s) : LiveInv (apply s e) :=
+  ⟨objsInv_step hen h.obj, roleInv_step hen h.role, launchInv_step hen h.obj h.launch,
+   forkRange_step hen h.range, cleanInv_step hen hnf h.clean⟩
+
+theorem liveInv_init (g : List NodeInfo) : LiveInv (init g) :=
+  ⟨objsInv_init g, fun o => roleObj_empty _ _, launchInv_init g, fun _ _ => rfl,
+   fun _ _ _ => ⟨rfl, rfl⟩⟩
+
+theorem liveInv_initFull (g : List NodeInfo) : LiveInv (initFull g) :=
+  ⟨fun o => objInv_empty _ _, fun o => roleObj_empty _ _, by constructor <;> simp [initFull],
+   fun _ _ => rfl, fun _ _ _ => ⟨rfl, rfl⟩⟩
+
+theorem run_liveInv {s0 : State} {σ : Nat → State} {es : Nat → Ev} (hrun : Run s0 σ es)
+    (h0 : LiveInv s0) (hnf : ∀ i, (es i).failing = false) : ∀ i, LiveInv (σ i) := by
+  intro i
+  induction i with
+  | zero => rw [hrun.start]; exact h0
+  | succ i ih => rw [hrun.next]; exact liveInv_step (hrun.en i) (hnf i) ih
+
+theorem run_nodes {s0 : State} {σ : Nat → State} {es : Nat → Ev} (hrun : Run s0 σ es) :
+    ∀ i, (σ i).nodes = s0.nodes := by
+  intro i
+  induction i with
+  | zero => rw [hrun.start]
+  | succ i ih => rw [hrun.next, apply_nodes]; exact ih
+
+theorem quiet_alive {s : State} {e : Ev} (hq : e.quiet s = true) (h : s.phase ≠ .crashed) :
+    (apply s e).phase ≠ .crashed := by
+  rw [apply_phase]
+  cases e <;> simp_all [Ev.quiet, Ev.structural]
+
+theorem nf_quiet {s : State} {e : Ev} (h1 : e.failing = false) (h2 : e.structural s = false) :
+    e.quiet s = true := by simp [Ev.quiet, h1, h2]
+
+/-- any fair run without failure events, with finitely many structure events and
+interruptions, in which mrp is up after the last of them, finishes the pipestance -/
+theorem interrupted_run_finishes {s0 : State} {σ : Nat → State} {es : Nat → Ev}
+    (hrun : Run s0 σ es) (h0 : LiveInv s0) (hac : Acyclic s0.nodes)
+    (hnf : ∀ i, (es i).failing = false) {K : Nat}
+    (hK : ∀ i, K ≤ i → (es i).structural (σ i) = false) (hup : (σ K).phase ≠ .crashed)
+    (hfair : Fair σ) : ∃ M, K ≤ M ∧ ∀ j, M ≤ j → Finished (σ j) := by
+  have hinv := run_liveInv hrun h0 hnf
+  have hq : ∀ i, K ≤ i → (es i).quiet (σ i) = true := fun i hi => nf_quiet (hnf i) (hK i hi)
+  have halive : ∀ d, (σ (K + d)).phase ≠ .crashed := by
+    intro d
+    induction d with
+    | zero => exact hup
+    | succ d ih =>
+      have : K + (d + 1) = K + d + 1 := by omega
+      rw [this, hrun.next]
+      exact quiet_alive (hq _ (by omega)) ih
+  apply fair_run_finishes hrun hfair hq
+  intro i hi
+  have hal : (σ i).phase ≠ .crashed := by
+    have := halive (i - K)
+    have hh : K + (i - K) = i := by omega
+    rwa [hh] at this
+  exact finished_or_progress (hinv i).obj (hinv i).role (hinv i).launch (hinv i).range
+    (by rw [run_nodes hrun i]; exact hac) hal (hinv i).clean
+
 end Martian.Sched
